@@ -467,7 +467,7 @@ def _desugar_for_each(caller, bi, by_path, collect_into_vec=False, try_mode=Fals
     return True
 
 
-def inline_new_helpers(raw, baseline=None):
+def inline_new_helpers(raw, baseline=None, keep=None):
     """Returns the list of (caller path, helper path) pairs that were inlined (raw is modified in place)."""
     if baseline is None:
         baseline = load_baseline()
@@ -506,6 +506,8 @@ def inline_new_helpers(raw, baseline=None):
         return tuple(segs[-2:]) if (len(segs) >= 3 and segs[-2][:1].isupper()) else tuple(segs[-1:])
     gone = {tail(p_) for p_ in baseline if p_ not in by_path and not p_.startswith("<")}
     helpers = {p_ for p_ in helpers if tail(p_) not in gone}
+    if keep is not None:
+        helpers = {p_ for p_ in helpers if not keep(p_)}
     if not helpers:
         return done
     pristine = {p: copy.deepcopy(by_path[p]) for p in helpers}
